@@ -7,3 +7,7 @@ def fill(claim, not_yet):
 		'Tens of thousands (quick) to over a million (thorough) random bind/unbind/rebind/resolve/can_resolve/invoke/combine histories are applied to real containers and to a 100-line reference model; identity of resolved objects, arguments received by factories, can_resolve answers and exception classes are compared after every step; failing histories are shrunk. A monitor on DI.invoke records which factory names were invoked before on which container.',
 		'Trusted: vf/oracle/di_model.py. Domain restrictions (acyclic factories, no bind() on a lazily defined unmaterialised symbol, same-class combine, function/method/class factories only) are listed in the evidence assumptions.',
 		'DESIGN.md §4 C19')
+	claim('C17', 'exploration', 'runtime monitoring: differential execution of the real LiteralEvaluator / Py2Cpp enum-value emission against CPython evaluating the same module text',
+		'Generated constant expressions are planted as enum member values; the real evaluator is run on every member value node and the emitted text of E.X.value is read back from a real transpile; CPython (eval of the expression and execution of the module, two routes that must agree) is the oracle for value and type; refusals must be application errors.',
+		'Trusted: CPython eval/exec, ast.literal_eval for decoding string tokens and emitted literals. Outside: expressions CPython itself rejects, string prefixes, enum aliasing; the C++ spelling of triple-quoted / embedded-double-quote string tokens is judged at the evaluator only (string-literal translation belongs to C01).',
+		'DESIGN.md §4 C17')
